@@ -1309,6 +1309,17 @@ class Repository:
             finally:
                 await chunk_producer
 
+        # Files that produced no chunk of their own (a tree of only empty files
+        # produces no chunks at all) still have to be recorded
+        for _, file in state.files:
+            if file.path not in snapshot_files:
+                snapshot_files[file.path] = {
+                    'path': file.path,
+                    'chunks': [],
+                    'digest': file.digest,
+                    'metadata': file.metadata,
+                }
+
         now = datetime.utcnow()
         snapshot_data = {
             'utc_timestamp': str(now),
@@ -1556,6 +1567,15 @@ class Repository:
         )
 
         with finished_tracker, bytes_tracker:
+            # Files without any chunk references are never visited by the chunk
+            # loaders; create them here
+            for file_path, digests in files_digests.items():
+                if not digests:
+                    restore_path, metadata = files_metadata.pop(file_path)
+                    self._write_file_part(restore_path, b'', 0)
+                    self.restore_metadata(restore_path, metadata)
+                    finished_tracker.update()
+
             await asyncio.gather(
                 *(
                     loop.run_in_executor(loader, _download_chunk, *x)
